@@ -35,7 +35,7 @@ STUBS = [
 ]
 ASSUMPTIONS = ["log2 is an uninterpreted function with the inverse/monotonicity lemmas"]
 
-M = 10**6
+M = 3 * 10**8  # a bin may be as long as a chromosome (depth below 2**-20 is reachable)
 
 
 class Read:
@@ -139,7 +139,7 @@ def h_pileup(ctx, ncols):
         s = ctx.int(f"s{i}", 0, M)
         e = ctx.int(f"e{i}", 0, M)  # zero-width / reversed allowed
         bc = ctx.int(f"bc{i}", 0, 10**7)
-        rows.append((c, s, e, f"G{i}", bc))
+        rows.append((c, s, e, "gene 0" if i == 0 else f"G{i}", bc))  # BED fields are tab-separated: a name may hold a blank
 
     def fake_bedcov(*cmd, **kw):
         out = []
